@@ -990,49 +990,72 @@ Proof.
   destruct m; cbn [spec_default]; repeat match goal with |- context [if ?b then _ else _] => destruct b end; reflexivity.
 Qed.
 
-(* ================================================================ Part 5: order independence *)
+(* ================================================================ Part 5: order and multiplicity independence *)
 
-Lemma Permutation_filter {A} (f : A -> bool) l l' : Permutation l l' -> Permutation (filter f l) (filter f l').
+(* two lists with the same elements (order and multiplicity ignored) *)
+Definition sameset {A} (l l' : list A) : Prop := forall x, In x l <-> In x l'.
+
+Lemma Permutation_sameset {A} (l l' : list A) : Permutation l l' -> sameset l l'.
+Proof. intros P x. split; apply Permutation_in; [|apply Permutation_sym]; exact P. Qed.
+
+Lemma sameset_filter {A} (f : A -> bool) l l' : sameset l l' -> sameset (filter f l) (filter f l').
+Proof. intros H x. rewrite !filter_In, (H x). reflexivity. Qed.
+
+Lemma sameset_flat_map {A B} (f : A -> list B) l l' : sameset l l' -> sameset (flat_map f l) (flat_map f l').
 Proof.
-  induction 1 as [|x l l' _ IH|x y l|l l' l'' _ IH1 _ IH2]; cbn [filter].
-  - constructor.
-  - destruct (f x); [constructor|]; exact IH.
-  - destruct (f x), (f y); try apply Permutation_refl. apply perm_swap.
-  - eapply Permutation_trans; eassumption.
+  intros H y. rewrite !in_flat_map. split; intros (x & Hx & Hy); exists x; (split; [apply H, Hx|exact Hy]).
 Qed.
 
-Lemma existsb_perm {A} (f : A -> bool) l l' : Permutation l l' -> existsb f l = existsb f l'.
+Lemma sameset_map {A B} (f : A -> B) l l' : sameset l l' -> sameset (map f l) (map f l').
+Proof.
+  intros H y. rewrite !in_map_iff. split; intros (x & Hy & Hx); exists x; (split; [exact Hy|apply H, Hx]).
+Qed.
+
+Lemma existsb_sameset {A} (f : A -> bool) l l' : sameset l l' -> existsb f l = existsb f l'.
 Proof.
   intros P. apply bool_eq_iff. rewrite !existsb_exists.
-  split; intros (x & Hin & Hx); exists x; (split; [|exact Hx]);
-    [eapply Permutation_in; eassumption|eapply Permutation_in; [apply Permutation_sym|]; eassumption].
+  split; intros (x & Hin & Hx); exists x; (split; [apply P, Hin|exact Hx]).
 Qed.
 
-Section Perm.
+(* the strongest level only depends on which levels occur *)
+Lemma strongest_sameset l1 l2 : sameset l1 l2 -> strongest l1 = strongest l2.
+Proof.
+  intros P. assert (H1 := strongest_spec l1). assert (H2 := strongest_spec l2).
+  destruct (strongest l1) as [a|], (strongest l2) as [b|].
+  - destruct H1 as [I1 M1], H2 as [I2 M2]. f_equal. apply rank_inj.
+    assert (rank a <= rank b) by (apply M2, P, I1).
+    assert (rank b <= rank a) by (apply M1, P, I2).
+    lia.
+  - subst l2. destruct H1 as [I1 _]. apply P in I1. destruct I1.
+  - subst l1. destruct H2 as [I2 _]. apply P in I2. destruct I2.
+  - reflexivity.
+Qed.
+
+Section SameSet.
   Variables ps ps' : list policy.
-  Hypothesis HP : Permutation ps ps'.
+  Hypothesis HP : sameset ps ps'.
 
-  Lemma rules_perm : Permutation (all_rules ps) (all_rules ps').
-  Proof. apply Permutation_flat_map, HP. Qed.
+  Lemma rules_same : sameset (all_rules ps) (all_rules ps').
+  Proof. apply sameset_flat_map, HP. Qed.
 
-  Lemma eff_perm k pf n : eff (all_rules ps) k pf n = eff (all_rules ps') k pf n.
-  Proof. apply strongest_perm, Permutation_flat_map, Permutation_filter, rules_perm. Qed.
+  Lemma eff_same k pf n : eff (all_rules ps) k pf n = eff (all_rules ps') k pf n.
+  Proof. apply strongest_sameset, sameset_flat_map, sameset_filter, rules_same. Qed.
 
-  Lemma eff_int_perm pf n : eff_int (all_rules ps) pf n = eff_int (all_rules ps') pf n.
+  Lemma eff_int_same pf n : eff_int (all_rules ps) pf n = eff_int (all_rules ps') pf n.
   Proof.
-    unfold eff_int. rewrite eff_perm.
-    assert (P : Permutation (flat_map (fun r => olist (doc_level (r_int r))) (matching (all_rules ps) KService pf n))
-                            (flat_map (fun r => olist (doc_level (r_int r))) (matching (all_rules ps') KService pf n)))
-      by apply Permutation_flat_map, Permutation_filter, rules_perm.
-    rewrite (strongest_perm _ _ P). reflexivity.
+    unfold eff_int. rewrite eff_same.
+    assert (P : sameset (flat_map (fun r => olist (doc_level (r_int r))) (matching (all_rules ps) KService pf n))
+                        (flat_map (fun r => olist (doc_level (r_int r))) (matching (all_rules ps') KService pf n)))
+      by apply sameset_flat_map, sameset_filter, rules_same.
+    rewrite (strongest_sameset _ _ P). reflexivity.
   Qed.
 
-  Lemma names_perm k : Permutation (names_of (all_rules ps) k) (names_of (all_rules ps') k).
-  Proof. apply Permutation_map, Permutation_filter, rules_perm. Qed.
+  Lemma names_same k : sameset (names_of (all_rules ps) k) (names_of (all_rules ps') k).
+  Proof. apply sameset_map, sameset_filter, rules_same. Qed.
 
-  Lemma scalar_perm f : scalar f ps = scalar f ps'.
-  Proof. apply strongest_perm, Permutation_flat_map, HP. Qed.
-End Perm.
+  Lemma scalar_same f : scalar f ps = scalar f ps'.
+  Proof. apply strongest_sameset, sameset_flat_map, HP. Qed.
+End SameSet.
 
 Lemma longest_prefix_ext v v' n : (forall pf x, v pf x = v' pf x) -> longest_prefix v n = longest_prefix v' n.
 Proof.
@@ -1043,35 +1066,36 @@ Qed.
 Lemma applicable_ext v v' n : (forall pf x, v pf x = v' pf x) -> applicable v n = applicable v' n.
 Proof. intros E. unfold applicable. rewrite E, (longest_prefix_ext v v' n E). reflexivity. Qed.
 
-Lemma rules_at_ext v v' S S' : (forall pf x, v pf x = v' pf x) -> Permutation S S' ->
-  Permutation (rules_at v S) (rules_at v' S').
+Lemma rules_at_ext v v' S S' : (forall pf x, v pf x = v' pf x) -> sameset S S' ->
+  sameset (rules_at v S) (rules_at v' S').
 Proof.
   intros E P. unfold rules_at.
   rewrite (flat_map_ext _ (fun n => olist (v' false n) ++ olist (v' true n))) by (intros x; rewrite !E; reflexivity).
-  apply Permutation_flat_map, P.
+  apply sameset_flat_map, P.
 Qed.
 
-Lemma spec_any_ext v v' S S' need : (forall pf x, v pf x = v' pf x) -> Permutation S S' ->
+Lemma spec_any_ext v v' S S' need : (forall pf x, v pf x = v' pf x) -> sameset S S' ->
   spec_any v S need = spec_any v' S' need.
-Proof. intros E P. unfold spec_any. rewrite (existsb_perm _ _ _ (rules_at_ext v v' S S' E P)), E. reflexivity. Qed.
+Proof. intros E P. unfold spec_any. rewrite (existsb_sameset _ _ _ (rules_at_ext v v' S S' E P)), E. reflexivity. Qed.
 
-Lemma spec_all_ext v v' S S' need : (forall pf x, v pf x = v' pf x) -> Permutation S S' ->
+Lemma spec_all_ext v v' S S' need : (forall pf x, v pf x = v' pf x) -> sameset S S' ->
   spec_all v S need = spec_all v' S' need.
-Proof. intros E P. unfold spec_all. rewrite (existsb_perm _ _ _ (rules_at_ext v v' S S' E P)), E. reflexivity. Qed.
+Proof. intros E P. unfold spec_all. rewrite (existsb_sameset _ _ _ (rules_at_ext v v' S S' E P)), E. reflexivity. Qed.
 
-Lemma spec_subtree_ext good v v' S S' p : (forall pf x, v pf x = v' pf x) -> Permutation S S' ->
+Lemma spec_subtree_ext good v v' S S' p : (forall pf x, v pf x = v' pf x) -> sameset S S' ->
   spec_subtree good v S p = spec_subtree good v' S' p.
 Proof.
   intros E P. unfold spec_subtree. rewrite (longest_prefix_ext v v' p E).
-  rewrite (existsb_perm _ _ _ (rules_at_ext v v' _ _ E (Permutation_filter (String.prefix p) _ _ P))). reflexivity.
+  rewrite (existsb_sameset _ _ _ (rules_at_ext v v' _ _ E (sameset_filter (String.prefix p) _ _ P))). reflexivity.
 Qed.
 
-(* the documented rule does not look at the order of the policies (nor of the rules inside) *)
-Theorem spec_decide_perm ps ps' m : Permutation ps ps' -> spec_decide ps m = spec_decide ps' m.
+(* the documented rule only looks at WHICH policies a token has: not at their order, not at how
+   often one occurs *)
+Theorem spec_decide_sameset ps ps' m : sameset ps ps' -> spec_decide ps m = spec_decide ps' m.
 Proof.
   intros HP.
-  assert (Ek := eff_perm ps ps' HP). assert (Ei := eff_int_perm ps ps' HP).
-  assert (En := names_perm ps ps' HP). assert (Es := scalar_perm ps ps' HP).
+  assert (Ek := eff_same ps ps' HP). assert (Ei := eff_int_same ps ps' HP).
+  assert (En := names_same ps ps' HP). assert (Es := scalar_same ps ps' HP).
   assert (A : forall k n, applicable (eff (all_rules ps) k) n = applicable (eff (all_rules ps') k) n)
     by (intros; apply applicable_ext; intros; apply Ek).
   assert (Ai : forall n, applicable (eff_int (all_rules ps)) n = applicable (eff_int (all_rules ps')) n)
@@ -1093,6 +1117,9 @@ Proof.
     by (intros; apply spec_subtree_ext; [intros; apply Ek|apply En]).
   destruct m; cbn [spec_decide]; rewrite ?A, ?Ai, ?Any, ?All, ?Anyi, ?Alli, ?Sub, ?Es; reflexivity.
 Qed.
+
+Theorem spec_decide_perm ps ps' m : Permutation ps ps' -> spec_decide ps m = spec_decide ps' m.
+Proof. intros HP. apply spec_decide_sameset, Permutation_sameset, HP. Qed.
 
 (* ---- "longest": the prefix rule chosen is the one with the longest name ---- *)
 
